@@ -1,59 +1,15 @@
-use ascent::internal::verif;
-use ascent::{ascent, ascent_par, ascent_run};
-use ascent::Dual;
-
-ascent! {
-   #![generate_run_timeout]
-   struct Tc;
-   relation e(i32, i32);
-   relation p(i32, i32);
-   p(x, y) <-- e(x, y);
-   p(x, z) <-- e(x, y), p(y, z);
-}
-
-ascent! {
-   struct Sp;
-   relation e(i32, i32, u32);
-   lattice sp(i32, i32, Dual<u32>);
-   sp(x, y, Dual(*w)) <-- e(x, y, w);
-   sp(x, z, Dual(w + l.0)) <-- e(x, y, w), sp(y, z, l);
-}
-
+use ascent::ascent_par;
 ascent_par! {
-   struct SpPar;
-   relation e(i32, i32, u32);
-   lattice sp(i32, i32, Dual<u32>);
-   relation cnt(usize);
-   sp(x, y, Dual(*w)) <-- e(x, y, w);
-   sp(x, z, Dual(w + l.0)) <-- e(x, y, w), sp(y, z, l);
-   cnt(n) <-- agg n = ascent::aggregators::count() in sp(_, _, _);
+   struct R;
+   relation e(i32, i32);
+   relation lp(i32);
+   relation sym(i32, i32);
+   lp(x) <-- e(x, x);
+   sym(x, y) <-- e(x, y), e(y, x);
 }
-
 fn main() {
-   verif::arm();
-   verif::clock_arm();
-   let mut tc = Tc::default();
-   tc.e = vec![(0, 1), (1, 2), (2, 0)];
-   let r = tc.run_timeout(std::time::Duration::from_nanos(2));
-   println!("ret {} checks {}", r, verif::clock_disarm());
-   tc.run();
-   for e in vh_core::hook_events(verif::disarm()) { println!("{}", e); }
-   println!("{}", vh_core::rows_json(tc.p.iter()));
-
-   verif::arm();
-   let mut sp = Sp::default();
-   sp.e = vec![(0, 1, 5), (1, 2, 1), (0, 2, 9)];
-   sp.run();
-   for e in vh_core::hook_events(verif::disarm()) { println!("{}", e); }
-   println!("{}", vh_core::rows_json(sp.sp.iter()));
-
-   verif::arm();
-   let mut sp = SpPar::default();
-   sp.e = [(0, 1, 5), (1, 2, 1), (0, 2, 9)].into_iter().collect();
-   sp.run();
-   for e in vh_core::hook_events(verif::disarm()) { println!("{}", e); }
-   let rows: Vec<_> = sp.sp.iter().map(|r| r.read().unwrap().clone()).collect();
-   println!("{}", vh_core::rows_json(rows.iter()));
-   let r = ascent_run! { relation a(i32); a(1); a(x+1) <-- a(x), if *x < 3; };
-   println!("{:?}", r.a);
+   let mut r = R::default();
+   r.e = [(0, 0), (0, 1)].into_iter().collect();
+   r.run();
+   println!("{:?}", r.lp);
 }
